@@ -56,11 +56,38 @@ def is_enabled_cond(cond):
     return kind(c) == "Field" and c["name"] == "enabled" and "ParseAttempts" in c.get("bty", "")
 
 
+def is_disabled_cond(cond):
+    c = peel(cond)
+    return kind(c) == "Unary" and c["op"] == "!" and is_enabled_cond(c["e"])
+
+
 def in_guarded_region(ctx, n):
     for g in ctx.guards(n):
         if g[0] == "if" and g[2] is True and any(is_enabled_cond(cj) for cj in conj(g[1])):
             return True
+        # after `if !<state>.parse_attempts.enabled { return; }` (or the else branch of that test)
+        if g[0] == "not" and is_disabled_cond(g[1]):
+            return True
+        if g[0] == "if" and g[2] is False and is_disabled_cond(g[1]):
+            return True
     return False
+
+
+def early_exit_regions(body):
+    """(if-node, region) for every `if !enabled { return / break }` statement of a block: the region is the rest of
+    that block."""
+    out = []
+    for blk in walk(body):
+        if kind(blk) != "Block":
+            continue
+        sts = blk.get("stmts", [])
+        for i, st in enumerate(sts):
+            e = st.get("e") if st.get("k") in ("Expr", "Semi") else None
+            if e is not None and kind(e) == "If" and e.get("else") is None and is_disabled_cond(e["cond"]) \
+                    and hirq.diverges(e["then"]):
+                out.append((e, {"k": "Block", "stmts": sts[i + 1:], "expr": blk.get("expr"), "sp": e.get("sp"),
+                                "ty": blk.get("ty")}))
+    return out
 
 
 def conj(n):
@@ -121,7 +148,16 @@ def confine(rep, c, sfx):
             if ok and touches:
                 confined.add(b["path"])
                 changed = True
-    r.note("confined ParserState helpers: %s" % sorted(confined))
+    # helpers that guard themselves: the first statement is `if !enabled { return }`, the rest of the body is a region
+    self_guarding = set()
+    for b in psfns:
+        body = b["body"]
+        sts = body.get("stmts", []) if kind(body) == "Block" else []
+        if sts and sts[0].get("k") in ("Expr", "Semi") and kind(sts[0].get("e")) == "If" \
+                and is_disabled_cond(sts[0]["e"]["cond"]) and hirq.diverges(sts[0]["e"]["then"]) and sts[0]["e"].get("else") is None \
+                and not b.get("exported"):
+            self_guarding.add(b["path"])
+    r.note("confined ParserState helpers: %s; self-guarding helpers: %s" % (sorted(confined), sorted(self_guarding)))
     for b in psfns + ([c.fn("pest::parser_state::state")] if c.fn("pest::parser_state::state") else []):
         ctx = ctxs[b["path"]]
         lets = hirq.lets(b["body"])
@@ -139,6 +175,9 @@ def confine(rep, c, sfx):
                 return True
             for (p, k, i) in ctx.ancestors(n):
                 if id(p) in guarded_closures:
+                    return True
+                # handed to a helper that tests the flag itself before it does anything (`if !enabled { return }`)
+                if kind(p) in ("MethodCall", "Call") and k == "args" and callee(p) in self_guarding:
                     return True
             return False
 
@@ -170,6 +209,10 @@ def confine(rep, c, sfx):
                 key = "region:%s@%s" % (b["path"].split("::")[-1], region_tag(ctx, x))
                 r.instance(key, where(x))
                 check_region(r, key, region, b, pa_methods, confined, closure_ids, c)
+        for (ifn, region) in early_exit_regions(b["body"]):
+            key = "region:%s@early-exit" % b["path"].split("::")[-1]
+            r.instance(key, where(ifn))
+            check_region(r, key, region, b, pa_methods, confined, closure_ids, c)
         for lid, clo in closure_ids.items():
             if id(clo) in guarded_closures:
                 key = "closure:%s" % b["path"].split("::")[-1]
@@ -288,6 +331,10 @@ def classify_read(ctx, x, fn, lets, region_ok):
     p, k, i = ctx.parent.get(id(cur), (None, None, None))
     if p is not None and kind(p) == "If" and k == "cond" and is_enabled_cond(cur):
         return ("flag", "the enabled flag guarding a region")
+    if p is not None and kind(p) == "Unary" and p.get("op") == "!" and is_enabled_cond(cur):
+        pp = ctx.parent.get(id(p), (None, None, None))
+        if pp[0] is not None and kind(pp[0]) == "If" and pp[1] == "cond":
+            return ("flag", "the enabled flag guarding a region (negated, early exit)")
     if p is not None and kind(p) == "Binary" and p["op"] == "&&":
         pp = ctx.parent.get(id(p), (None, None, None))
         if is_enabled_cond(cur):
@@ -337,13 +384,27 @@ def reset(rep, c, sfx):
     rule = c.fn(PS + "::rule")
     ok = False
     if rule is not None:
-        for n in walk(rule["body"]):
-            if kind(n) == "If":
+        # rule() itself, or a private helper of the parser state it hands the remembered values to
+        hosts = [rule]
+        for (cal, n0) in hirq.call_sites(rule["body"]):
+            h = c.fn(cal) if isinstance(cal, str) else None
+            if h is not None and h is not rule and h.get("impl_self") == PS and not h.get("exported") and h.get("body") is not None:
+                hosts.append(h)
+        for h in hosts:
+            for n in walk(h["body"]):
+                if kind(n) != "If":
+                    continue
                 cnd = peel(n["cond"])
-                if kind(cnd) == "Binary" and cnd["op"] == ">" and kind(peel(cnd["l"])) == "Field" and peel(cnd["l"])["name"] == "max_position":
-                    if any(kind(x) == "Assign" and hirq.lit_value(x["r"]) == 0 for x in walk(n["then"])):
-                        ok = True
-                        r.instance("rule:reader", where(n))
+                if kind(cnd) != "Binary" or cnd["op"] not in (">", "<"):
+                    continue
+                big = peel(cnd["l"]) if cnd["op"] == ">" else peel(cnd["r"])
+                if not (kind(big) == "Field" and big["name"] == "max_position"):
+                    continue
+                zero_assigned = any(kind(x) == "Assign" and hirq.lit_value(x["r"]) == 0 for x in walk(n["then"]))
+                zero_value = any(hirq.lit_value(peel(v)) == 0 for v in hirq.tail_leaves(n["then"]))
+                if zero_assigned or zero_value:
+                    ok = True
+                    r.instance("rule:reader", where(n))
     if not ok:
         r.violation("rule:reader", where(rule["body"]) if rule else "", "rule() no longer resets its remembered "
                     "stack count when max_position grew")
@@ -371,8 +432,17 @@ def errctor(rep, c, sfx):
     if st is None:
         r.lost("pest::state")
         return
-    for n in walk(st["body"]):
-        if kind(n) == "If" and any(is_enabled_cond(cj) for cj in conj(n["cond"])):
+    # pest::state, or the helper of the parser-state module it delegates the failure report to
+    sel_nodes = []
+    for b in [st] + [b for b in c.bodies if b is not st and b.get("body") is not None and not b.get("exp")
+                     and b["path"].startswith("pest::parser_state::") and "::tests::" not in b["path"]]:
+        for n in walk(b["body"]):
+            if kind(n) == "If" and any(is_enabled_cond(cj) for cj in conj(n["cond"])) and any(
+                    kind(x) == "Call" and isinstance(callee(x), str) and callee(x).startswith("pest::error::Error::")
+                    for x in walk(n["then"])):
+                sel_nodes.append(n)
+    for n in sel_nodes:
+        if True:
             tcalls = [x for x in walk(n["then"]) if kind(x) == "Call" and isinstance(callee(x), str) and callee(x).startswith("pest::error::Error::")]
             ecalls = [x for x in walk(n["else"]) if kind(x) == "Call" and isinstance(callee(x), str) and callee(x).startswith("pest::error::Error::")] if n.get("else") else []
             r.instance("state:select", where(n))
